@@ -3,7 +3,7 @@
   (score, key). Scores are integers here (the harness uses finite scores k/4; the order and equality of
   such floats are those of k). The skiplist itself (levels, spans, every search loop) is
   Nuts.Model.Skiplist; this file carries the behaviours of `sortedset.go` that are visible through
-  the API, including the two known quirks (reverse range returning the header sentinel, `FindRank("")`).
+  the API.
 -/
 import Nuts.Basic
 import Nuts.Kernel
@@ -78,9 +78,9 @@ def getByScoreRange (s : St) (a b : Int) (limit : Int) (exA exB : Bool) : List N
     let from_ := s.dropWhile fun n => if exLo then decide (n.score ≤ lo) else decide (n.score < lo)
     (from_.takeWhile fun n => if exHi then decide (n.score < hi) else decide (n.score ≤ hi)).take lim
   else
-    -- reverse: x = last node with score ≤ / < end, or the header when there is none; walk backward
+    -- reverse: x = last node with score ≤ / < end; walk backward
     let upto := s.takeWhile fun n => if exHi then decide (n.score < hi) else decide (n.score ≤ hi)
-    let chain := if upto.isEmpty then [header] else upto.reverse
+    let chain := upto.reverse    -- no member at or below the end: nothing (the header is not a member)
     (chain.takeWhile fun n => if exLo then decide (n.score > lo) else decide (n.score ≥ lo)).take lim
 
 /-- 1-based rank of `k`, 0 when absent (the layout-independent answer). -/
